@@ -69,6 +69,9 @@ def run(tier: str) -> int:
                           ("enc/modern.py", "def gr\u00fc\u00dfe(a):\n    s = 'caf\u00e9 \u20ac'\n    return s + '\u00e9\u20ac'\n".encode("utf-8")),
                           ("enc/legacy.c", "/* \xe9 */\nint old(int a) {\n  return a;\n}\n".encode("latin-1")),
                           ("enc/modern.c", "int neu(int a) {\n  s = \"caf\u00e9 \u20ac\"; return a; /* \u00e9 */ }\n".encode("utf-8")),
+                          # hidden directories with source files next to each other: pruned whatever the listing order
+                          ("hid/.alpha/tool.py", "def tool(a):\n    return a\n"), ("hid/.beta/helper.py", "def helper(a):\n    return a\n"), ("hid/src/x.py", "def x(a):\n    return a\n"),
+                          ("hid/.gamma/.delta/deep.js", "function deep(a) {\n  return a;\n}\n"), ("hid/.m.py", "def hidden_file():\n    pass\n"), ("hid/.n.py", "def hidden_file2():\n    pass\n"),
                           ("enc2/a_legacy.js", "// \xe9\nfunction old(a) {\n  return a;\n}\n".encode("latin-1")),
                           ("enc2/b_modern.js", "function neu(a) {\n  return '\u00e9\u20ac'; }\n".encode("utf-8"))):
             (gen / rel).parent.mkdir(parents=True, exist_ok=True)
